@@ -140,6 +140,37 @@ func (fr *Frame) resolveName(name string, at *ssa.BasicBlock, st *State) (TV, bo
 	return TV{}, false
 }
 
+// resolveNameAt resolves a source variable at the current point of block `at` (values of `at` computed so far count).
+func (fr *Frame) resolveNameAt(name string, at *ssa.BasicBlock, st *State) (TV, bool) {
+	// latest DebugRef in `at` whose value is already computed
+	var best ssa.Value
+	for _, in := range at.Instrs {
+		d, ok := in.(*ssa.DebugRef)
+		if !ok || d.IsAddr {
+			continue
+		}
+		if o := d.Object(); o == nil || o.Name() != name {
+			continue
+		}
+		if _, have := fr.vals[d.X]; have {
+			best = d.X
+		} else if _, isC := d.X.(*ssa.Const); isC {
+			best = d.X
+		}
+	}
+	if best != nil {
+		return TV{fr.val(best), best.Type()}, true
+	}
+	for _, p := range headerPhis(at) {
+		if p.Comment == name {
+			if v, ok := fr.vals[p]; ok {
+				return TV{v, p.Type()}, true
+			}
+		}
+	}
+	return fr.resolveName(name, at, st)
+}
+
 func isParamLike(v ssa.Value) bool {
 	switch v.(type) {
 	case *ssa.Parameter, *ssa.Const, *ssa.FreeVar:
@@ -499,6 +530,14 @@ func (fr *Frame) dryRunLoop(lc *loopCtx, pre *State) map[string]*modInfo {
 	log := vc.storeLog
 	vc.storeLog, vc.logStores = saveLog, saveLogging
 	vc.dry--
+	// values computed during the dry run must not be visible to name resolution in the real pass
+	for b := range lc.body {
+		for _, in := range b.Instrs {
+			if v, ok := in.(ssa.Value); ok {
+				delete(fr.vals, v)
+			}
+		}
+	}
 	mods := classifyMods(vc, log, mark)
 	return mods
 }
